@@ -267,7 +267,13 @@ def entails_le(facts, a, b):
         return "identical"
     if a[0] == "n" and b[0] == "n":
         return "constants" if a[1] <= b[1] else None
+    if a[0] == "n":
+        w = entails_ge(facts, b, a[1])   # k <= x  from  k' <= x / k' < x / x == k' with k' large enough
+        if w:
+            return w
     for f in facts:
+        if b[0] == "n" and f[0] == "op" and f[1] in ("<", "<=") and f[2] == a and f[3][0] == "n" and f[3][1] - (1 if f[1] == "<" else 0) <= b[1]:
+            return "x %s %d on this path" % (f[1], f[3][1])   # x <= k  from  x < k' / x <= k' with k' small enough
         if f[0] == "op" and f[1] == "<=" and f[2] == a and f[3] == b:
             return "a <= b on this path"
         if f[0] == "op" and f[1] == "<" and f[2] == a and f[3] == b:
